@@ -53,6 +53,7 @@ def coherent(m):
     c.calc_labels()
     for name, f in (('str', str), ('sssr', lambda x: sorted(map(sorted, x.sssr))), ('rings', lambda x: x.atoms_rings_sizes), ('components', lambda x: sorted(map(sorted, x.connected_components))),
                     ('order', lambda x: x.atoms_order), ('brutto', lambda x: x.brutto),
+                    ('linear fingerprint', lambda x: sorted(x.linear_hash_set())), ('morgan fingerprint', lambda x: sorted(x.morgan_hash_set())),
                     ('labels', lambda x: [(n, a.neighbors, a.hybridization, a.heteroatoms, bool(a.in_ring), sorted(a.ring_sizes)) for n, a in x.atoms()]),
                     ('bond marks', lambda x: [(n, k, bool(b.in_ring)) for n, k, b in x.bonds()])):
         def val(x):
@@ -63,6 +64,15 @@ def coherent(m):
         if val(m) != val(c):
             return name
     return None
+
+
+def _warm(m):
+    for f in (str, lambda x: x.sssr, lambda x: x.atoms_rings_sizes, lambda x: x.connected_components, lambda x: x.atoms_order, lambda x: x.brutto, lambda x: x.linear_hash_set(),
+              lambda x: x.morgan_hash_set(), lambda x: x.aromatic_rings, lambda x: x.not_special_connectivity):
+        try:
+            f(m)
+        except Exception:
+            pass
 
 
 def check_ops(acc, m0, tag, bad, ops, perms=(), taut_perms=False):
@@ -77,6 +87,7 @@ def check_ops(acc, m0, tag, bad, ops, perms=(), taut_perms=False):
         acc.states += 1
         acc.transitions += 2
         m = m0.copy()
+        _warm(m)   # every memo is populated before the operation, so anything the operation forgets to drop is seen by coherent() afterwards
         try:
             f(m)
         except Exception as e:
